@@ -374,11 +374,14 @@ func c20DialsMade(cs c20Case, i int) int {
 	return n
 }
 
-func c20Eval(cs c20Case) (string, string) {
+func c20Eval(cs c20Case) (cl string, detail string) {
 	if strings.HasPrefix(cs.Target, "e2e") {
 		return c20E2E(cs)
 	}
-	return c20Direct(cs)
+	if cr := guard(func() { cl, detail = c20Direct(cs) }); cr != "" {
+		return "crash", cs.sig() + ": " + cr
+	}
+	return
 }
 
 func c20Plans() [][]int {
